@@ -130,6 +130,8 @@ type Conn struct {
 
 	// whether the writing event has been set in the poller.
 	isWAdded bool
+	// close the connection when the cached data has been sent.
+	closeAfterFlush bool
 	// the first closing error.
 	closeErr error
 
@@ -379,7 +381,7 @@ func (c *Conn) Write(b []byte) (int, error) {
 	// c.p.g.beforeWrite(c)
 
 	c.mux.Lock()
-	if c.closed {
+	if c.closed || c.closeAfterFlush {
 		c.mux.Unlock()
 		return -1, net.ErrClosed
 	}
@@ -417,7 +419,7 @@ func (c *Conn) Writev(in [][]byte) (int, error) {
 	// c.p.g.beforeWrite(c)
 
 	c.mux.Lock()
-	if c.closed {
+	if c.closed || c.closeAfterFlush {
 		c.mux.Unlock()
 
 		return 0, net.ErrClosed
@@ -491,6 +493,22 @@ func (c *Conn) Close() error {
 //go:norace
 func (c *Conn) CloseWithError(err error) error {
 	return c.closeWithError(err)
+}
+
+// CloseAfterFlush closes the connection as soon as the data cached by
+// earlier writes has been sent, at once if there is none. Nothing more can
+// be written, and until then the connection stays subject to its deadlines.
+//
+//go:norace
+func (c *Conn) CloseAfterFlush() error {
+	c.mux.Lock()
+	if !c.closed && len(c.writeList) > 0 {
+		c.closeAfterFlush = true
+		c.mux.Unlock()
+		return nil
+	}
+	c.mux.Unlock()
+	return c.closeWithError(nil)
 }
 
 // LocalAddr returns the local network address, if known.
@@ -984,6 +1002,20 @@ func (c *Conn) flush() error {
 			_ = c.closeWithErrorWithoutLock(err)
 			return err
 		}
+	}
+
+	if c.closeAfterFlush {
+		c.closed = true
+		if c.wTimer != nil {
+			c.wTimer.Stop()
+			c.wTimer = nil
+		}
+		if c.rTimer != nil {
+			c.rTimer.Stop()
+			c.rTimer = nil
+		}
+		_ = c.closeWithErrorWithoutLock(nil)
+		return nil
 	}
 
 	c.resetRead()
